@@ -87,7 +87,7 @@ m = {
  'engines': engines,
  'checks': checks,
  'not_applicable': sorted(na, key=lambda d: d['property_id']),
- 'notes': 'One technique throughout: deterministic simulation with fault injection (DESIGN.md). Exit status: 0 held, 1 VIOLATION, 2 harness failure. known_findings.txt lists recorded genuine defects (known:) and repaired ones (fixed:).',
+ 'notes': 'One technique throughout: deterministic simulation with fault injection (DESIGN.md). Exit status: 0 held, 1 VIOLATION, 2 harness failure. known_findings.txt lists recorded genuine defects (known: - none at present) and repaired ones (fixed:). seeded/ holds 60 independently seeded breaking changes with the check that catches each (tools/seed_recheck.py re-runs them), benign/ 20 legitimate changes on which every check must stay silent (tools/benign_eval.py).',
 }
 json.dump(m, open(os.path.join(V, 'MANIFEST.json'), 'w'), indent=1)
 print('claimed:', [c['property_id'] for c in checks])
